@@ -42,6 +42,13 @@ Theorem weight_pairing : forall l l', Permutation l l' -> req (mean l) (mean l')
 Proof. exact mean_perm. Qed.
 Print Assumptions weight_pairing.
 
+(* particles that represent no atoms (virtual sites) are left alone and change nothing for the others: the particles
+   with constituents get exactly the positions they would get without them *)
+Theorem graphless_particles_do_not_disturb : forall ps,
+  existsb particle_key_error ps = false -> results_of (particles_positions ps) = molecule_positions (beads_of ps).
+Proof. exact graphless_transparent. Qed.
+Print Assumptions graphless_particles_do_not_disturb.
+
 (* non-vacuity: unequal weights, a zero weight, a missing position whose weight would
    otherwise shift the result, centre weights; and pairing is not vacuous: swapping the
    weights alone changes the result *)
